@@ -20,7 +20,7 @@ def history (c : Json) : P Json := do
   let tbl ← listF (asPair asNat asInt) c "hash"
   let nan ← listF asNat c "nan"
   let fpOf : VecVal → Int := fun v => FP.fpVec (v.data.map (hashOf tbl nan))
-  let comb : List Int → Int := FP.fpVec
+  let comb : List Int → Int := FP.fpComb
   let steps ← asArr (← field c "steps")
   let mut h : Heap := Heap.empty
   let mut k := 0
@@ -74,8 +74,8 @@ def nested (c impl : Json) : P Json := do
   let hs' ← listF asInt c "hs2"
   let other ← listF asInt c "other"
   let ob ← intF impl "o_before"; let oa ← intF impl "o_after"; let rebuilt ← intF impl "o_rebuilt"
-  let mB := FP.fpVec [FP.fpTab [hs], FP.fpTab [other]]
-  let mA := FP.fpVec [FP.fpTab [hs'], FP.fpTab [other]]
+  let mB := FP.fpComb [FP.fpTab [hs], FP.fpTab [other]]
+  let mA := FP.fpComb [FP.fpTab [hs'], FP.fpTab [other]]
   if ob != mB || oa != mA then
     return verdict false s!"fingerprints of the table of tables ({ob}, {oa}) differ from the rolling hash of its contents ({mB}, {mA})"
   if oa != rebuilt then
@@ -84,8 +84,24 @@ def nested (c impl : Json) : P Json := do
     return verdict false s!"element hashes of an inner column changed from {hs} to {hs'} but the outer fingerprint stayed {ob}" (toJson (mB == mA))
   return verdict true ""
 
+/-- one table-level write that changes cells of SEVERAL columns (row, region or whole-table assignment, exchange of cells
+    between columns, transposition of a square table): the table fingerprint must notice -/
+def tsens (c impl : Json) : P Json := do
+  let cols ← listF (asList asInt) c "cols"
+  let cols' ← listF (asList asInt) c "cols2"
+  let tb ← intF impl "t_before"; let ta ← intF impl "t_after"; let rebuilt ← intF impl "t_rebuilt"
+  let mB := FP.fpTab cols; let mA := FP.fpTab cols'
+  if ta != rebuilt then
+    return verdict false s!"fingerprint {ta} of the written table differs from a freshly built equal one ({rebuilt})"
+  if tb != mB || ta != mA then
+    return verdict false s!"table fingerprints ({tb}, {ta}) differ from the model's hash of the contents ({mB}, {mA})"
+  if cols != cols' && ta == tb then
+    return verdict false s!"cell hashes changed from {cols} to {cols'} but the table fingerprint stayed {tb}" (toJson (mB == mA))
+  return verdict true ""
+
 def handle (fam : String) (c impl : Json) : P Json :=
   match fam with
+  | "tsens" => tsens c impl
   | "history" => history c
   | "sens" => sens c impl
   | "nested" => nested c impl
